@@ -82,6 +82,7 @@ CONF = {
             "per available set resp. free vector) and of resourceManager.Allocate / Update / Release with the NodeAllocation projection "
             "(seeded random histories); distinct by content hash, non-trivial = at least one checked event after the reset",
     "assumptions": [
+        "topologies: 1-4 sockets x 1-4 NUMA nodes x 1-4 cores x 1-2 threads (the 3- and 4-socket ones were added after a seed reviewer pointed at takeCPUs' last-resort loop; defect f6c7e5b)",
         "symmetric CPU topologies as built by the package's buildCPUTopologyForTest (sockets x NUMA nodes x cores x threads), "
         "asymmetric free sets; amplification ratios 1, no reusable / required (reservation-designated) NUMA resources",
         "a committed allocation credits (preferredCPUs / preemptibleCPUs) only CPUs the pod itself holds - its previous allocation, "
